@@ -217,7 +217,10 @@ func (c *UContract) fieldDecl(f UField) string {
 func (c *UContract) initStmt(f UField) string {
 	if c.isResource(f.Type) {
 		v := c.value(f.Type, f.Seed)
-		return fmt.Sprintf("self.%s %s", f.Name, v) // value starts with "<- "
+		if !strings.HasPrefix(v, "<- ") {
+			v = "<- " + v // nil
+		}
+		return fmt.Sprintf("self.%s %s", f.Name, v)
 	}
 	return fmt.Sprintf("self.%s = %s", f.Name, c.value(f.Type, f.Seed))
 }
@@ -318,7 +321,7 @@ func (c *UContract) randType(ch Chooser, upto int, allowRes bool, depth int) *UT
 	}
 	w := []int{4, 1, 3, 1, 0, 0, 0, 0, 0}
 	if depth < 2 {
-		w[4], w[5], w[6], w[7] = 2, 3, 2, 2
+		w[4], w[5], w[6], w[7] = 2, 3, 3, 2
 	}
 	if len(named) > 0 {
 		w[8] = 8
@@ -506,7 +509,22 @@ func (c *UContract) subtle(ch Chooser, t *UType) *UType {
 func (c *UContract) Mutate(ch Chooser) string {
 	comps := c.composites()
 	pickComp := func() *UDecl { return comps[ch.Intn("comp", len(comps))] }
-	kind := MutationKinds[ch.Intn("mutation", len(MutationKinds))]
+	// near-boundary mutations (types that differ only slightly) get more weight
+	weights := make([]int, len(MutationKinds))
+	for i, k := range MutationKinds {
+		switch k {
+		case "field-retype-subtle":
+			weights[i] = 8
+		case "contract-field-retype", "enum-case-swap", "enum-case-insert", "conformance-remove":
+			weights[i] = 3
+		default:
+			weights[i] = 2
+		}
+	}
+	kind := MutationKinds[Weighted(ch, "mutation", weights)]
+	if len(comps) == 0 && (strings.HasPrefix(kind, "field-") || strings.HasPrefix(kind, "conformance-")) {
+		return ""
+	}
 	switch kind {
 	case "field-add":
 		d := pickComp()
@@ -579,7 +597,19 @@ func (c *UContract) Mutate(ch Chooser) string {
 	case "decl-remove", "decl-remove-pragma":
 		var cand []*UDecl
 		for _, d := range c.Decls {
-			if d.Kind != "sinterface" && d.Kind != "rinterface" && !c.refs(d.Name) {
+			if d.Kind == "sinterface" || d.Kind == "rinterface" || c.refs(d.Name) {
+				continue
+			}
+			// values of the implementation chosen for interface-typed fields are stored
+			// inside other values: removing that type (which #removedType permits by
+			// design) would make those unreadable, which is not what C27 is about
+			embedded := false
+			for _, cf := range d.Conforms {
+				if c.refsIface(cf) && c.implOf(cf) == d {
+					embedded = true
+				}
+			}
+			if !embedded {
 				cand = append(cand, d)
 			}
 		}
@@ -624,15 +654,24 @@ func (c *UContract) Mutate(ch Chooser) string {
 		}
 	case "enum-case-append":
 		es := c.enums()
+		if len(es) == 0 {
+			return ""
+		}
 		d := es[ch.Intn("enum", len(es))]
 		d.Cases = append(d.Cases, fmt.Sprintf("n%d", len(d.Cases)))
 	case "enum-case-insert":
 		es := c.enums()
+		if len(es) == 0 {
+			return ""
+		}
 		d := es[ch.Intn("enum", len(es))]
 		i := ch.Intn("pos", len(d.Cases))
 		d.Cases = append(d.Cases[:i:i], append([]string{fmt.Sprintf("n%d", len(d.Cases))}, d.Cases[i:]...)...)
 	case "enum-case-remove":
 		es := c.enums()
+		if len(es) == 0 {
+			return ""
+		}
 		d := es[ch.Intn("enum", len(es))]
 		if len(d.Cases) < 2 {
 			return ""
@@ -641,11 +680,20 @@ func (c *UContract) Mutate(ch Chooser) string {
 		d.Cases = append(d.Cases[:i:i], d.Cases[i+1:]...)
 	case "enum-case-swap":
 		es := c.enums()
+		if len(es) == 0 {
+			return ""
+		}
 		d := es[ch.Intn("enum", len(es))]
+		if len(d.Cases) < 2 {
+			return ""
+		}
 		i := ch.Intn("pos", len(d.Cases)-1)
 		d.Cases[i], d.Cases[i+1] = d.Cases[i+1], d.Cases[i]
 	case "enum-rawtype":
 		es := c.enums()
+		if len(es) == 0 {
+			return ""
+		}
 		d := es[ch.Intn("enum", len(es))]
 		d.RawType = []string{"UInt16", "Int8", "UInt8"}[ch.Intn("raw", 2)]
 	case "kind-change":
@@ -804,7 +852,7 @@ func GenUpdatePair(ch Chooser) *UpdatePair {
 	v1 := GenUContract(ch, "C")
 	v2 := v1.clone()
 	p := &UpdatePair{V1: v1, V2: v2}
-	n := 1 + ch.Intn("mutations", 3)
+	n := 1 + Weighted(ch, "mutations", []int{5, 3, 2})
 	for tries := 0; len(p.Mutations) < n && tries < 12; tries++ {
 		save := v2.clone()
 		k := v2.Mutate(ch)
@@ -890,16 +938,34 @@ func GenUpdatePair(ch Chooser) *UpdatePair {
 			fmt.Fprintf(&body, "  if let v%d = %s.storage.borrow<%s>(from: %s) {\n    let r = v%d.chk()\n    if r != \"\" { out.append(\"%d:%s \".concat(r)) }\n",
 				i, acc, amp, it.Path, i, it.Acct, it.Path)
 			for _, cf := range it.Conforms {
-				if v2.decl(cf) == nil {
-					p.Lost = append(p.Lost, "interface "+cf)
+				still := false
+				for _, cf2 := range d2.Conforms {
+					if cf2 == cf {
+						still = true
+					}
+				}
+				if v2.decl(cf) == nil || !still {
+					// conformance is nominal: without the declaration in v2 the stored value
+					// cannot be an instance of the interface any more
+					p.Lost = append(p.Lost, fmt.Sprintf("conformance %s: %s", it.Decl, cf))
 					continue
 				}
-				fmt.Fprintf(&body, "    if !v%d.isInstance(Type<&{C.%s}>()) && !v%d.getType().isSubtype(of: Type<&{C.%s}>()) { out.append(\"%d:%s no longer conforms to %s\") }\n",
-					i, cf, i, cf, it.Acct, it.Path, cf)
+				at := ""
+				if it.Kind == "resource" {
+					at = "@"
+				}
+				fmt.Fprintf(&body, "    if !Type<%sC.%s>().isSubtype(of: Type<%s{C.%s}>()) { out.append(\"%d:%s no longer conforms to %s\") }\n",
+					at, it.Decl, at, cf, it.Acct, it.Path, cf)
 			}
 			fmt.Fprintf(&body, "  } else { out.append(\"%d:%s cannot be borrowed\") }\n", it.Acct, it.Path)
 			if it.Kind == "struct" {
-				fmt.Fprintf(&body, "  if %s.storage.copy<C.%s>(from: %s) == nil { out.append(\"%d:%s cannot be copied\") }\n", acc, it.Decl, it.Path, it.Acct, it.Path)
+				fmt.Fprintf(&body, "  if let w%d = %s.storage.copy<C.%s>(from: %s) {\n", i, acc, it.Decl, it.Path)
+				for _, cf := range it.Conforms {
+					if v2.decl(cf) != nil {
+						fmt.Fprintf(&body, "    if !w%d.isInstance(Type<{C.%s}>()) { out.append(\"%d:%s is not an instance of %s\") }\n", i, cf, it.Acct, it.Path, cf)
+					}
+				}
+				fmt.Fprintf(&body, "  } else { out.append(\"%d:%s cannot be copied\") }\n", it.Acct, it.Path)
 			}
 		}
 	}
